@@ -634,6 +634,11 @@ func (x *Exec) havocLoop(body ast.Node, extra []types.Object, st *State, env *En
 		allocEntry = x.c.define("alloc", "Int", allocEntry)
 	}
 	lc := &loopCtx{allocEntry: allocEntry}
+	// the allocation counter is advanced first: well-formedness of the havocked values below is relative to it
+	if allocs {
+		h.alloc = x.c.freshConst("alloc", "Int")
+		x.c.assume("true", app(">=", h.alloc, allocEntry))
+	}
 	for _, obj := range sortedObjs(vars) {
 		old, ok := st.vars[obj]
 		if !ok {
@@ -645,6 +650,7 @@ func (x *Exec) havocLoop(body ast.Node, extra []types.Object, st *State, env *En
 		// automatic framing invariant for slices: the array is the pre-loop one or was allocated during the loop
 		if _, isSl := obj.Type().Underlying().(*types.Slice); isSl && x.writtenThrough(body, obj, env.info) {
 			lc.autoSlices = append(lc.autoSlices, autoSlice{obj, x.c.accessor("s.ref", old.T)})
+			lc.tracked = append(lc.tracked, trackedSlice{name: obj.Name(), sort: x.c.sortOf(x.elemType(obj.Type())), preRef: x.c.accessor("s.ref", old.T), headRef: x.c.accessor("s.ref", nv.T), obj: obj})
 			x.c.assume("true", or(eq(x.c.accessor("s.ref", nv.T), x.c.accessor("s.ref", old.T)), app(">=", x.c.accessor("s.ref", nv.T), allocEntry)))
 		}
 	}
@@ -666,11 +672,22 @@ func (x *Exec) havocLoop(body ast.Node, extra []types.Object, st *State, env *En
 		}
 		preRef := x.c.accessor("s.ref", pre.T)
 		lc.autoPaths = append(lc.autoPaths, autoPath{pe, preRef})
+		lc.tracked = append(lc.tracked, trackedSlice{name: exprString(pe), sort: x.c.sortOf(x.elemType(post.Ty)), preRef: preRef, headRef: x.c.accessor("s.ref", post.T), expr: pe})
 		x.c.assume("true", or(eq(x.c.accessor("s.ref", post.T), preRef), app(">=", x.c.accessor("s.ref", post.T), allocEntry)))
 	}
-	if allocs {
-		h.alloc = x.c.freshConst("alloc", "Int")
-		x.c.assume("true", app(">=", h.alloc, allocEntry))
+	// loop-carried slices that are written through never share a backing array (unless nil): holds at entry when they were
+	// allocated separately, and is preserved because a reallocating append returns a brand-new array
+	for a := 0; a < len(lc.tracked); a++ {
+		for b := a + 1; b < len(lc.tracked); b++ {
+			ta, tb := lc.tracked[a], lc.tracked[b]
+			if ta.sort != tb.sort {
+				continue
+			}
+			pre := or(not(eq(ta.preRef, tb.preRef)), eq(ta.preRef, "0"))
+			x.oblige(fmt.Sprintf("loop%d.autodisjoint(%s,%s).init", x.curLoopOrd, ta.name, tb.name), 0, body.Pos(), st, pre, "two slices written in the loop do not share a backing array at loop entry")
+			x.c.assume("true", or(not(eq(ta.headRef, tb.headRef)), eq(ta.headRef, "0")))
+			lc.pairs = append(lc.pairs, [2]int{a, b})
+		}
 	}
 	// heaps: arrays allocated before the loop and not written in it keep their contents. Which pre-existing arrays
 	// may be written is decided by frame obligations on every store inside the loop (loopCtx.modRefs).
@@ -806,7 +823,38 @@ func (x *Exec) writtenFieldPaths(body ast.Node, info *types.Info) []ast.Expr {
 	return out
 }
 
+func (x *Exec) trackedRef(t trackedSlice, st *State) string {
+	if t.obj != nil {
+		if v, ok := st.vars[t.obj]; ok {
+			return x.c.accessor("s.ref", v.T)
+		}
+		return ""
+	}
+	var v Val
+	func() {
+		saved := x.c.inContract
+		defer func() {
+			x.c.inContract = saved
+			recover()
+		}()
+		x.c.inContract++
+		v = x.eval(t.expr, st.clone(), x.codeEnv)
+	}()
+	if v.T == "" {
+		return ""
+	}
+	return x.c.accessor("s.ref", v.T)
+}
+
 func (x *Exec) checkAutoFrame(lc *loopCtx, end *State, ord int, pos token.Pos) {
+	for _, pr := range lc.pairs {
+		ta, tb := lc.tracked[pr[0]], lc.tracked[pr[1]]
+		ra, rb := x.trackedRef(ta, end), x.trackedRef(tb, end)
+		if ra == "" || rb == "" {
+			continue
+		}
+		x.oblige(fmt.Sprintf("loop%d.autodisjoint(%s,%s).preserve", ord, ta.name, tb.name), 0, pos, end, or(not(eq(ra, rb)), eq(ra, "0")), "two slices written in the loop still do not share a backing array")
+	}
 	for _, a := range lc.autoPaths {
 		var v Val
 		func() {
@@ -1025,6 +1073,7 @@ func (x *Exec) execFor(n *ast.ForStmt, st *State, env *Env) Flow {
 	}
 	pos := n.Body.Lbrace + 1
 	x.checkInvariants("init", ord, spec, st, pos, nil)
+	x.curLoopOrd = ord
 	h, lc := x.havocLoop(n, nil, st, env, spec)
 	x.assumeInvariants(spec, h, pos, nil)
 	x.loopStack = append(x.loopStack, lc)
@@ -1208,6 +1257,7 @@ func (x *Exec) execRange(n *ast.RangeStmt, st *State, env *Env) Flow {
 		st0.vars[keyObj] = Val{T: "0", Ty: tInt}
 	}
 	x.checkInvariants("init", ord, spec, st0, pos, names0)
+	x.curLoopOrd = ord
 	h, lc := x.havocLoop(n.Body, nil, st, env, spec)
 	x.loopStack = append(x.loopStack, lc)
 	defer func() { x.loopStack = x.loopStack[:len(x.loopStack)-1] }()
@@ -1289,7 +1339,7 @@ func mergeNames(a, b map[string]Val) map[string]Val {
 var pureLib = map[string]bool{
 	"errors.New": true, "fmt.Errorf": true, "strconv.Itoa": true, "strconv.FormatFloat": true, "strconv.Atoi": true,
 	"strings.Join": true, "strings.ToUpper": true, "(*os.File).WriteString": true, "fmt.Fprintf": true, "fmt.Fprintln": true,
-	"fmt.Fprint": true, "unicode/utf8.DecodeRune": true, "unicode.IsLetter": true, "math.Log": true, "math.IsNaN": true, "math.Floor": true, "sort.SearchInts": true, "sort.SearchStrings": true,
+	"fmt.Fprint": true, "unicode/utf8.DecodeRune": true, "unicode.IsLetter": true, "math.Log": true, "math.IsNaN": true, "math.Floor": true, "sort.SearchInts": true, "sort.SearchStrings": true, "(github.com/biogo/hts/sam.CigarOp).Type": true, "(github.com/biogo/hts/sam.CigarOpType).String": true, "(github.com/biogo/hts/sam.CigarOp).Len": true,
 	"(*bufio.Scanner).Bytes": true, "(*bufio.Scanner).Text": true, "(*bufio.Scanner).Err": true, "(*bufio.Scanner).Buffer": true,
 }
 
@@ -1303,11 +1353,17 @@ func (x *Exec) callEffects(n *ast.CallExpr, info *types.Info) (allocs, ghosts bo
 	if pureLib[full] {
 		return false, false, nil
 	}
-	if full == "(io.Writer).Write" || full == "(*bufio.Scanner).Scan" || full == "(*encoding/csv.Reader).Read" {
+	if full == "(io.Writer).Write" || full == "(*bufio.Scanner).Scan" || full == "(*encoding/csv.Reader).Read" || full == "(*github.com/biogo/hts/sam.Reader).Read" {
 		return false, true, nil
+	}
+	if full == "(*github.com/biogo/hts/sam.Reader).Header" {
+		return false, false, nil
 	}
 	if full == "strings.Fields" || full == "strings.Split" {
 		return true, false, []string{sortStr}
+	}
+	if full == "(github.com/biogo/hts/sam.Seq).Expand" {
+		return true, false, []string{sortBV8}
 	}
 	if full == "(*bufio.Scanner).Text" {
 		return false, false, nil
@@ -1321,6 +1377,9 @@ func (x *Exec) callEffects(n *ast.CallExpr, info *types.Info) (allocs, ghosts bo
 		return true, true, []string{"*"}
 	}
 	if fi := x.g.funcByObj[fn.Origin()]; fi != nil {
+		if _, isTable := x.g.tableByFn[fi.Key]; isTable {
+			return false, false, nil
+		}
 		if con := x.g.cs.Funcs[fi.Key]; con != nil {
 			if con.Inline {
 				return false, false, nil
@@ -1408,10 +1467,13 @@ func (x *Exec) ghostHandlesIn(body ast.Node, st *State, env *Env) (all bool, han
 			if pureLib[full] || full == "sort.Slice" || full == "sort.SliceStable" {
 				return true
 			}
-			if full == "strings.Fields" || full == "strings.Split" {
+			if full == "strings.Fields" || full == "strings.Split" || full == "(github.com/biogo/hts/sam.Seq).Expand" {
 				return true
 			}
-			if full == "(io.Writer).Write" || full == "(*bufio.Scanner).Scan" || full == "(*encoding/csv.Reader).Read" {
+			if full == "(*github.com/biogo/hts/sam.Reader).Header" {
+				return true
+			}
+			if full == "(io.Writer).Write" || full == "(*bufio.Scanner).Scan" || full == "(*encoding/csv.Reader).Read" || full == "(*github.com/biogo/hts/sam.Reader).Read" {
 				if sel, ok := n.Fun.(*ast.SelectorExpr); ok {
 					if t, ok := termOf(sel.X); ok {
 						handles[t] = true
